@@ -592,6 +592,43 @@ def m_blockparam():
     return item("blockparam", m, [calls])
 
 
+def m_locals():
+    """Declared locals start at zero in every activation: functions whose locals are first *written* inside a branch
+    that is not taken / a loop that runs zero times and are then read, called right after a function that filled
+    the (native) stack with non-zero values."""
+    m = Mod()
+    n64, n32 = 14, 8
+    body = []
+    for k in range(n64):
+        body += [lget(0), const(I64, k + 1), simple("i64.add"), lset(1 + k)]
+    for k in range(n32):
+        body += [lget(0), simple("i32.wrap_i64"), const(I32, -1 - k), simple("i32.xor"), lset(1 + n64 + k)]
+    body += [const(I64, 0)]
+    for k in range(n64):
+        body += [lget(1 + k), simple("i64.xor")]
+    for k in range(n32):
+        body += [lget(1 + n64 + k), simple("i64.extend_i32_u"), simple("i64.add")]
+    m.func([I64], [I64], [I64] * n64 + [I32] * n32, body, export="dirty")
+    m.func([I32], [I32], [I32], [lget(0), if_(), const(I32, 5), lset(1), END, lget(1)], export="if_set")
+    m.func([I32], [I64], [I64, I64], [lget(0), if_(), const(I64, 5), lset(2), const(I64, 6), lset(1), END, lget(1), lget(2),
+                                      simple("i64.add")], export="if_set64")
+    m.func([I32], [I32], [I32], [lget(0), if_(), simple("nop"), ELSE, const(I32, 9), lset(1), END, lget(1)], export="else_set")
+    m.func([I32], [I32], [I32, I32], [block(), loop(), lget(0), simple("i32.eqz"), br_if(1), const(I32, 7), lset(1),
+                                      lget(2), const(I32, 1), simple("i32.add"), lset(2), lget(0), const(I32, 1),
+                                      simple("i32.sub"), lset(0), br(0), END, END, lget(1), const(I32, 100),
+                                      simple("i32.mul"), lget(2), simple("i32.add")], export="loop_set")
+    m.func([I32], [I32], [I32, I32, I32], [block(), lget(0), br_if(0), const(I32, 3), lset(2), block(), lget(0),
+                                           simple("i32.eqz"), br_if(1), const(I32, 4), lset(3), END, END, lget(1),
+                                           lget(2), simple("i32.add"), lget(3), simple("i32.add")], export="skip_set")
+    d1, d2, d3 = -1, 0x5555555555555555, signed(0xFEDCBA9876543210, I64)
+    calls = [C("dirty", [d1], [I64]), C("if_set", [0], [I32]), C("dirty", [d2], [I64]), C("if_set64", [0], [I32]),
+             C("dirty", [d3], [I64]), C("loop_set", [0], [I32]), C("dirty", [d1], [I64]), C("else_set", [1], [I32]),
+             C("dirty", [d2], [I64]), C("skip_set", [1], [I32]), C("if_set", [1], [I32]), C("if_set64", [7], [I32]),
+             C("loop_set", [3], [I32]), C("else_set", [0], [I32]), C("skip_set", [0], [I32]), C("dirty", [d3], [I64]),
+             C("if_set", [0], [I32]), C("loop_set", [0], [I32])]
+    return item("locals_init", m, [calls])
+
+
 def m_calls(rng):
     m = Mod()
     m.memory(1, 2)
@@ -695,6 +732,7 @@ def directed(rng, thorough=False):
     out += m_grow(rng)
     out.append(m_control(rng))
     out.append(m_blockparam())
+    out.append(m_locals())
     out.append(m_calls(rng))
     out.append(m_imports(rng))
     out.extend(m_init_traps())
